@@ -146,7 +146,11 @@ class Merkle(object):
 
 
 class MerkleCache(object):
-    '''A cache to calculate merkle branches efficiently.'''
+    '''A cache to calculate merkle branches efficiently.
+
+    Not thread-safe: call every method, truncate() included, from the thread of the event
+    loop that runs its coroutines.
+    '''
 
     def __init__(self, merkle, source_func):
         '''Initialise a cache hashes taken from source_func:
